@@ -22,7 +22,7 @@
    events; EVERY interleaving is a schedule.  Disabled events leave the state
    unchanged.  Kill = SIGKILL (process state lost, files stay).  No proofs here. *)
 From Coq Require Import List NArith Bool Arith.
-From NSQV Require Import model.Judge model.Names.
+From NSQV Require Import model.Judge model.Names model.MetaSrc.
 Import ListNotations.
 Open Scope nat_scope.
 Open Scope bool_scope.
@@ -459,8 +459,11 @@ Definition step_ (pad : bool) (s : st) (e : ev) : st :=
       match lock s with Some j => persist_step s j k | None => s end
   end.
 
-(* the code as it is now: persistAfterDelete present (fix d8e666b) *)
-Definition step : st -> ev -> st := step_ true.
+(* Does the source (gen/MetaShape.v, regenerated from the repository on every run) persist
+   again AFTER a deleted topic / channel has left its map (fix d8e666b)?  The model follows
+   the source: were the call removed or moved before the map removal, [step] would be the
+   pre-fix behaviour and the proofs of C06_idle_full would no longer go through. *)
+Definition step : st -> ev -> st := step_ pad_src.
 Definition run (s : st) (evs : list ev) : st := fold_left step evs s.
 (* the code before the fix (kept to show the old witness) *)
 Definition run_old (s : st) (evs : list ev) : st := fold_left (step_ false) evs s.
